@@ -1006,6 +1006,26 @@ TRUSTED_DIVISORS = {
 }
 
 
+def _is_newton_closure(facts, cb):
+    env = closure_env(facts, cb)
+    if not env:
+        return False
+    pb, rv, cbb = env
+    clo_l = None
+    for i_, si_, s_ in pb.stmts():
+        if s_.get("rv") is rv:
+            clo_l = s_["place"]["local"]
+    if clo_l is None:
+        return False
+    fl = core.Flow(pb)
+    for i, t in pb.calls():
+        if callee_name(t) == "fixpoint" and len(t["args"]) == 3 and i in pb.live_blocks():
+            a = t["args"][2]
+            if core.op_local(a) == clo_l or any(r[0] == "local" and r[1] == clo_l for r in fl.roots_of_operand(a)):
+                return True
+    return False
+
+
 def _nonzero_tests(b, tl, atoms):
     """list of (test, subject_atoms, subject_local_or_None, [nonzero edge targets])"""
     out = []
@@ -1234,6 +1254,12 @@ def check_division_sites(ctx, res, config="all"):
                 res.ok("R3b-divisor-nonzero", key, {"status": "precondition on callers", "param": pidx}, nontrivial=False)
             else:
                 reason = TRUSTED_DIVISORS.get((b.path, callee_name(t)))
+                if reason is None and b.kind == "Closure" and callee_name(t) == "div" and _is_newton_closure(facts, b):
+                    # whichever index the closure has: the function handed to `fixpoint` divides by (a power of) its own argument,
+                    # the Newton iterate, which fixpoint never lets reach 0
+                    da = atoms.of_operand(t["args"][1])
+                    if params_of(da) == {2} and not any(a_[0] == "param" and a_[1] == 1 for a_ in da):
+                        reason = "Newton iterate s >= 1 (the closure is the iteration function passed to fixpoint)"
                 if reason:
                     res.ok("R3b-divisor-nonzero", key, {"status": "trusted", "reason": reason}, nontrivial=False)
                     res.assume("divisor non-zero in %s (%s): %s" % (b.path, callee_name(t), reason))
